@@ -39,9 +39,10 @@ class _Namer:
     share one short naming scheme (legal: a function body is its own namespace, sibling bodies are
     separate scopes), which is what exposes renaming/inlining mistakes."""
 
-    def __init__(self, P, collide: bool = False):
+    def __init__(self, P, collide: bool = False, reverse_bodies: bool = False):
         self.P = P
         self.collide = collide
+        self.reverse_bodies = reverse_bodies
         self.fbodies = {f["body"] for f in P["f"]}
         # then/else bodies of the same If must not collide with each other's enclosing scope, only
         # with function-internal names: then-bodies use the scheme, else-bodies stay unique
@@ -111,13 +112,15 @@ def _make_nodes(P, gid, nm: _Namer, variant: int, in_function: bool):
 def _make_graph(P, gid, nm: _Namer, variant: int):
     g = P["g"][gid - 1]
     nodes = _make_nodes(P, gid, nm, variant, False)
+    if nm.reverse_bodies:
+        nodes = list(reversed(nodes))     # an unsorted nested body (input for the sorting pass only)
     outs = [helper.make_tensor_value_info(nm.ref(r), TensorProto.FLOAT, [None]) for r in g["outs"]]
     inits = [numpy_helper.from_array(CONSTS[t], name=f"g{gid}_init{k}") for k, t in enumerate(g["inits"], start=1)]
     return helper.make_graph(nodes, f"graph{gid}", [], outs, initializer=inits)
 
 
-def concretize(P: dict, variant: int = 0) -> onnx.ModelProto:
-    nm = _Namer(P, collide=(variant % 3 == 1))
+def concretize(P: dict, variant: int = 0, reverse_bodies: bool = False) -> onnx.ModelProto:
+    nm = _Namer(P, collide=(variant % 3 == 1), reverse_bodies=reverse_bodies)
     main = P["g"][0]
     nodes = _make_nodes(P, 1, nm, variant, False)
     inputs = [
